@@ -79,6 +79,76 @@ func colDesc(schema *parquet.Schema, ci int) string {
 	return sb.String() + ":" + n.Type().Kind().String()
 }
 
+// goLeafType: the Go type of the struct field (element, map key/value) feeding the leaf column at
+// the given schema path, "" if it cannot be resolved.
+func goLeafType(t reflect.Type, path []string) string {
+	for len(path) > 0 {
+		for t.Kind() == reflect.Ptr {
+			t = t.Elem()
+		}
+		switch {
+		case t.Kind() == reflect.Slice && t.Elem().Kind() != reflect.Uint8:
+			if len(path) >= 2 && path[0] == "list" && path[1] == "element" {
+				path = path[2:]
+			}
+			t = t.Elem()
+		case t.Kind() == reflect.Map:
+			if len(path) < 2 || path[0] != "key_value" {
+				return ""
+			}
+			if path[1] == "key" {
+				t = t.Key()
+			} else {
+				t = t.Elem()
+			}
+			path = path[2:]
+		case t.Kind() == reflect.Struct && t.String() != "time.Time":
+			ft, ok := c03FieldType(t, path[0])
+			if !ok {
+				return ""
+			}
+			t, path = ft, path[1:]
+		default:
+			return ""
+		}
+	}
+	for t.Kind() == reflect.Ptr || t.Kind() == reflect.Slice && t.Elem().Kind() != reflect.Uint8 {
+		t = t.Elem()
+	}
+	return t.String()
+}
+
+// colKey: column description for failure keys — repetition pattern of the ancestors, physical
+// type, and the Go leaf type with the logical type when the leaf is not the plain image of its Go
+// type (width tags, time, decimal, uuid, ...), so that defects of different conversions get
+// different keys.
+func colKey(e *gen.Entry, ci int) string {
+	d := colDesc(e.Schema, ci)
+	path := e.Schema.Columns()[ci]
+	leaf, _ := e.Schema.Lookup(path...)
+	gt := goLeafType(e.Type, path)
+	plain := map[string]string{"BOOLEAN": "bool", "FLOAT": "float32", "DOUBLE": "float64"}
+	kind := leaf.Node.Type().Kind().String()
+	switch {
+	case gt == "" || plain[kind] == gt:
+		return d
+	case kind == "INT32" && (gt == "int32" || gt == "uint32") || kind == "INT64" && (gt == "int64" || gt == "uint64" || gt == "int" || gt == "uint"):
+		if lt := leaf.Node.Type().LogicalType(); lt == nil || strings.HasPrefix(lt.String(), "INT(") {
+			return d
+		}
+	case (kind == "BYTE_ARRAY" || kind == "FIXED_LEN_BYTE_ARRAY") && (gt == "string" || gt == "[]uint8" || strings.HasSuffix(gt, "]uint8")):
+		if lt := leaf.Node.Type().LogicalType(); lt == nil || lt.String() == "STRING" || lt.String() == "UUID" && gt != "string" {
+			return d
+		}
+	}
+	s := d + "/" + gt
+	if lt := leaf.Node.Type().LogicalType(); lt != nil {
+		name, _, _ := strings.Cut(lt.String(), "(")
+		s += ":" + name
+	}
+	return s
+}
+
 func c03Batches(r *rand.Rand, n int) []int {
 	var b []int
 	switch r.Intn(4) {
@@ -261,7 +331,7 @@ func RunC03(ctx *core.Ctx) {
 				} else if c, i, desc := unorderedDiff(all.Cols, cols); c != -2 {
 					cd := "?"
 					if c >= 0 {
-						cd = colDesc(e.Schema, c)
+						cd = colKey(e, c)
 					}
 					ctx.Fail("L1", "stream-mismatch map path="+p.name+" col="+cd,
 						fmt.Sprintf("path %s stores a different Dremel stream than the documented mapping (compared up to map entry order): column %d row %d: %s", p.name, c, i, desc),
@@ -274,6 +344,21 @@ func RunC03(ctx *core.Ctx) {
 					ctx.Fail("L1", "value-mismatch map path="+p.name, "rows read back differ: "+diff, map[string]any{"type": e.Name, "rows": fmt.Sprintf("%+v", rows.Interface()), "diff": diff})
 				}
 			}
+		}
+	}
+	// undocumented shapes: what each path does is an observation, never a failure
+	for _, e := range gen.OddCatalog {
+		r := ctx.Rand("c03odd/" + e.Name)
+		rows := e.NewRows(4)
+		gen.FillRows(r, rows, &gen.Profile{NullProb: 0.5, MaxLen: 3})
+		for _, p := range c03Paths {
+			outcome := "stores the rows"
+			if _, err := p.write(e, rows.Interface(), nil, r); err != nil {
+				outcome = errClass(err)
+			}
+			ctx.Observe("undocumented-shape type="+e.Name+" path="+p.name+" "+outcome,
+				"a field shape outside the documented tags ("+e.Type.Field(0).Type.String()+") is accepted by SchemaOf; outcome of the path: "+outcome,
+				map[string]any{"type": e.Name, "go_type": e.Type.Field(0).Type.String(), "rows": fmt.Sprintf("%+v", rows.Interface())})
 		}
 	}
 	for name, why := range gen.Skipped {
@@ -350,7 +435,7 @@ func c03Case(ctx *core.Ctx, d interface {
 		if c, i, desc := firstDiff(expected, got); c != -2 {
 			cd := "?"
 			if c >= 0 {
-				cd = colDesc(e.Schema, c)
+				cd = colKey(e, c)
 			}
 			ctx.Fail("L1", "stream-mismatch path="+p.name+" col="+cd,
 				fmt.Sprintf("path %s stores a different Dremel stream than the documented mapping: column %d entry %d: %s", p.name, c, i, desc),
